@@ -29,8 +29,9 @@ CLAIMS = {
            '(the model of DPRNNBase.forward_layer, forward direction) equals the packing of the per-sequence recurrences; for the reverse direction (growing batch, rows of h_0 entering as their sequences start) row i of the loop\'s time-ordered outputs is the reversed recurrence over the reversed row i, for every cell and every column list with non-decreasing lengths; compute_seq_lengths (Gallina generated statement by statement) returns, '
            'for every non-increasing batch-size list, one entry per sequence equal to that sequence\'s length -- the index used to gather last states. The loop model is tied to the code by pins '
            '(slicing in all three cells, growing batch in the reverse direction, rename map) and by running the REAL forward_layer with an integer cell on generated ragged batches in both '
-           'directions and comparing outputs and last states exactly with the recurrence evaluated in Coq. The gate equations, multi-layer / bidirectional composition, sort / unsort '
-           'permutations, state_dict keys and parameter gradients are validated numerically against torch.nn.RNN / GRU / LSTM over the configuration grid (not proved); sort / unsort is by runs only. '
+           'directions and comparing outputs and last states exactly with the recurrence evaluated in Coq. The gate equations, '
+           'state_dict keys and parameter gradients are validated numerically against torch.nn.RNN / GRU / LSTM over the configuration grid (not proved). '
+           'The layer loop (layers x directions, state index layer * P + direction, outputs of the directions concatenated, dropout between layers only) is proved to be torch.nn\'s stacking semantics for ANY run / concatenation / dropout functions and all L, P (C13_layer_stack), and selecting rows by sorted_indices before and unsorted_indices after a row-wise computation is the computation on the original rows for inverse permutations (C13_sort_unsort_rowwise); both are tied to the code by structural pins of forward / iterate_layers / apply_permutation. '
            'Dropout: the generator checks structurally that only the cell binds the carried state and that dropout acts on inter-layer outputs only; train-mode runs with dropout = 1 (deterministic) '
            'are compared with torch.nn, and for 0 < p < 1 the zero pattern of outputs / final states and train-vs-eval difference are checked (one repaired defect).'),
  },
